@@ -3,10 +3,12 @@ from harness.core import coq_N, coq_list, coq_bool, coq_res, exn_kind
 
 PROP = "C27"
 COQ_REQUIRES = ["Hio.Base.AMap", "Hio.Model.Namer"]
-COQ_CHECK = "Namer.check_case"
-COQ_CASE_TYPE = "Namer.case"
-COQ_BRANCHES = ("Namer.case_branches", "Namer.n_branches")
-RULE = ("op sequences (add/rem/changeAddrAtName/changeNameAtAddr/clear) over 4 names x 4 addresses plus falsy "
+COQ_CHECK = "Namer.check_ccase"
+COQ_CASE_TYPE = "Namer.ccase"
+COQ_BRANCHES = ("Namer.ccase_branches", "Namer.n_branches")
+RULE = ("a constructor call Namer(entries=[...]) (empty, consistent, with repeated pairs, with conflicting names or addresses, "
+        "with falsy members; as list, tuple, generator or dict items) followed by "
+        "op sequences (add/rem/changeAddrAtName/changeNameAtAddr/clear) over 4 names x 4 addresses plus falsy "
         "(None and '') arguments; directed stream hits every model branch; a case is non-trivial when at least one "
         "op was rejected (NamerError) or reported no change and at least one succeeded")
 MODELLED = ["Python dict (as association list with unique keys)", "str equality of names/addresses (as N equality)"]
@@ -24,7 +26,29 @@ def directed():
         {"ops": [["add", 1, 1], ["add", 2, 2], ["chga", 1, 3], ["chga", 1, 3], ["chga", 1, 2], ["chga", 3, 4], ["chga", 0, 1], ["chga", 1, 0]]},
         {"ops": [["add", 1, 1], ["add", 2, 2], ["chgn", 1, 3], ["chgn", 1, 3], ["chgn", 1, 2], ["chgn", 4, 4], ["chgn", 0, 1], ["chgn", 1, 0]]},
         {"ops": [["add", 1, 1], ["clear", 0, 0], ["add", 2, 1], ["chga", 2, 2], ["chgn", 2, 1], ["rem", 1, 2]]},
+        # constructor: consistent, repeated pair, two names for one address, two addresses for one name, falsy member
+        {"entries": [[1, 1], [2, 2]], "ops": [["rem", 1, 0], ["add", 3, 1], ["chga", 2, 1]]},
+        {"entries": [[1, 1], [1, 1], [2, 2]], "ops": [["rem", 0, 1], ["rem", 2, 0]]},
+        {"entries": [[1, 1], [2, 1]], "ops": [["rem", 1, 0], ["rem", 2, 0]]},
+        {"entries": [[1, 1], [1, 2]], "ops": [["rem", 1, 0]]},
+        {"entries": [[1, 1], [0, 2]], "ops": []},
+        {"entries": [[1, 1], [2, 0]], "ops": [], "form": "tuple"},
+        {"entries": [[3, 4], [4, 3]], "ops": [["chgn", 4, 4], ["chga", 4, 4]], "form": "items"},
     ]
+
+
+def _entries(rng):
+    r = rng.random()
+    if r < 0.45:
+        return []
+    k = rng.choice([1, 2, 2, 3, 4, 5])
+    hi = rng.choice([2, 3, 4])
+    out = []
+    for _ in range(k):
+        a = rng.randint(0, hi) if rng.random() < 0.06 else rng.randint(1, hi)
+        b = rng.randint(0, hi) if rng.random() < 0.06 else rng.randint(1, hi)
+        out.append([a, b])
+    return out
 
 
 def generate(rng, tier):
@@ -39,7 +63,7 @@ def generate(rng, tier):
             a = rng.randint(0, hi) if rng.random() < 0.15 else rng.randint(1, hi)
             b = rng.randint(0, hi) if rng.random() < 0.15 else rng.randint(1, hi)
             ops.append([kind, a, b])
-        out.append({"ops": ops})
+        out.append({"ops": ops, "entries": _entries(rng), "form": rng.choice(["list", "tuple", "gen", "items"])})
     return out
 
 
@@ -47,10 +71,37 @@ def _falsy(i):
     return None if i % 2 == 0 else ""
 
 
+def _construct(case):
+    """Namer(entries=...) in the form the case asks for; the k-th falsy member alternates None and ''."""
+    from hio.help.naming import Namer
+    ents = [(NAMES[a] if a else _falsy(k), ADDRS[b] if b else _falsy(k + 1)) for k, (a, b) in enumerate(case.get("entries", []))]
+    form = case.get("form", "list")
+    if not ents and form != "items":
+        return Namer() if form == "list" else Namer(entries=tuple(ents) if form == "tuple" else iter(ents))
+    if form == "tuple":
+        return Namer(entries=tuple(ents))
+    if form == "gen":
+        return Namer(entries=(e for e in ents))
+    if form == "items":
+        return Namer(entries=dict_items_like(ents))
+    return Namer(entries=list(ents))
+
+
+class dict_items_like:
+    """an iterable of (name, addr) duples that is not a list/tuple (documented: 'iterable of duples')"""
+    def __init__(self, ents):
+        self.ents = ents
+    def __iter__(self):
+        return iter(self.ents)
+
+
 def run_impl(case):
     from hio.help.naming import Namer
     from hio import hioing
-    nm = Namer()
+    try:
+        nm = _construct(case)
+    except Exception as ex:
+        return {"raised": exn_kind(ex), "results": [], "abn": [], "nba": []}
     results = []
     for i, (kind, a, b) in enumerate(case["ops"]):
         # first operand is a name (add/rem/chga) or an address (chgn)
@@ -71,10 +122,22 @@ def run_impl(case):
     abn = sorted([NAMES.index(k), ADDRS.index(v)] for k, v in nm.addrByName.items())
     nba = sorted([ADDRS.index(k), NAMES.index(v)] for k, v in nm.nameByAddr.items())
     # snapshots after every op for the oracle
-    return {"results": results, "abn": abn, "nba": nba}
+    return {"raised": None, "results": results, "abn": abn, "nba": nba}
 
 
 def oracle(case, obs):
+    if obs.get("raised"):
+        # the constructor may reject only entry lists that really conflict or have a falsy member
+        ents = case.get("entries", [])
+        byn, bya, bad = {}, {}, False
+        for a, b in ents:
+            if not a or not b or byn.get(a, b) != b or bya.get(b, a) != a:
+                bad = True
+                break
+            byn[a] = b; bya[b] = a
+        if not bad:
+            return f"Namer(entries=...) raised {obs['raised']} on consistent entries {ents}"
+        return None
     abn = {k: v for k, v in obs["abn"]}
     nba = {k: v for k, v in obs["nba"]}
     if {v: k for k, v in abn.items()} != nba or len(set(abn.values())) != len(abn):
@@ -85,8 +148,9 @@ def oracle(case, obs):
 
 
 def _oracle_unchanged(case):
-    from hio.help.naming import Namer
-    nm = Namer()
+    nm = _construct(case)
+    if {v: k for k, v in nm.addrByName.items()} != nm.nameByAddr:
+        return f"Namer(entries=...) returned mappings that are not inverses: {nm.addrByName} vs {nm.nameByAddr}"
     for i, (kind, a, b) in enumerate(case["ops"]):
         before = (nm.addrByName, nm.nameByAddr)
         try:
@@ -120,14 +184,19 @@ def _op(o):
 
 def to_coq(case, obs):
     pairs = lambda l: coq_list([f"({coq_N(k)}, {coq_N(v)})" for k, v in l], "N * N")
-    return ("{| Namer.c_ops := %s; Namer.c_results := %s; Namer.c_abn := %s; Namer.c_nba := %s |}" % (
+    inner = ("{| Namer.c_ops := %s; Namer.c_results := %s; Namer.c_abn := %s; Namer.c_nba := %s |}" % (
         coq_list([_op(o) for o in case["ops"]], "Namer.op"),
         coq_list([coq_res(r, coq_bool) for r in obs["results"]], "res bool"),
         pairs(obs["abn"]), pairs(obs["nba"])))
+    raised = "None" if not obs.get("raised") else "(Some %s)" % obs["raised"]
+    return "{| Namer.cc_entries := %s; Namer.cc_raised := %s; Namer.cc_case := %s |}" % (
+        pairs(case.get("entries", [])), raised, inner)
 
 
 def nontrivial(case, obs):
     rs = obs["results"]
+    if obs.get("raised"):
+        return len(case.get("entries", [])) >= 2
     return any(r == ["ok", True] for r in rs) and any(r != ["ok", True] for r in rs)
 
 
@@ -137,5 +206,8 @@ def classify(case, obs, why):
 
 def shrink(case):
     ops = case["ops"]
+    ents = case.get("entries", [])
+    for i in range(len(ents)):
+        yield dict(case, entries=ents[:i] + ents[i + 1:])
     for i in range(len(ops)):
-        yield {"ops": ops[:i] + ops[i + 1:]}
+        yield dict(case, ops=ops[:i] + ops[i + 1:])
